@@ -1997,7 +1997,7 @@ namespace awkward {
         }
 
         input_names_.push_back(name);
-        input_must_be_writable_.push_back(true);
+        input_must_be_writable_.push_back(false);
 
         pos += 2;
       }
@@ -2429,7 +2429,10 @@ namespace awkward {
           else {
             must_be_writable &= ((bytecode & READ_BIGENDIAN) != 0);
           }
-          input_must_be_writable_[input_index] = must_be_writable;
+          // (any one such read is enough: a later read must not take it back)
+          if (must_be_writable) {
+            input_must_be_writable_[input_index] = true;
+          }
 
           bool good = true;
           I nbits = 0;
